@@ -1044,6 +1044,46 @@ func (payloadStream) Gen(r *rand.Rand, tier string, idx int) []string {
 	return g.sc
 }
 
+// Exhaustive: every single-signal placement (start 0..63, size 1..64-start, both byte
+// orders; quick: a size subset) decoded from walking-one / walking-zero / fixed payloads
+// through the real Message.SignalLayout().Decode — the finite sub-space of C02.
+func (payloadStream) Exhaustive(tier string) [][]string {
+	sizes := []int{1, 2, 3, 4, 7, 8, 9, 12, 16, 17, 31, 32, 33, 63, 64}
+	if tier == "thorough" {
+		sizes = nil
+		for i := 1; i <= 64; i++ {
+			sizes = append(sizes, i)
+		}
+	}
+	payloads := [][8]int{{255, 255, 255, 255, 255, 255, 255, 255}, {1, 2, 4, 8, 16, 32, 64, 128}, {0xA5, 0x5A, 0x3C, 0xC3, 0x0F, 0xF0, 0x81, 0x7E}}
+	var res [][]string
+	for be := 0; be < 2; be++ {
+		for _, size := range sizes {
+			var sc []string
+			sc = append(sc, sprintf("pl type.new 1 %d", size))
+			id := 10
+			for start := 0; start+size <= 64; start++ {
+				id++
+				sc = append(sc, sprintf("pl sig.std %d s 1", id), "pl msg.new "+sprintf("%d", 1000+id)+" 8",
+					sprintf("pl msg.be %d %d", 1000+id, be), sprintf("pl msg.ins %d %d %d", 1000+id, id, start), sprintf("pl dump %d", 1000+id))
+				for _, p := range payloads {
+					sc = append(sc, sprintf("pl dec %d %d %d %d %d %d %d %d %d", 1000+id, p[0], p[1], p[2], p[3], p[4], p[5], p[6], p[7]))
+				}
+				if tier == "thorough" || start%8 == 0 || (start+size)%8 == 0 {
+					// walking one over the bytes the signal touches
+					for bit := (start / 8) * 8; bit < ((start+size-1)/8+1)*8; bit++ {
+						var p [8]int
+						p[bit/8] = 1 << uint(bit%8)
+						sc = append(sc, sprintf("pl dec %d %d %d %d %d %d %d %d %d", 1000+id, p[0], p[1], p[2], p[3], p[4], p[5], p[6], p[7]))
+					}
+				}
+			}
+			res = append(res, sc)
+		}
+	}
+	return res
+}
+
 func (payloadStream) Tag(lines, outs []string) (bool, []string) {
 	var tags []string
 	okMut, errMut := 0, 0
